@@ -43,5 +43,23 @@ extern "C" int sim_main(int argc, char** argv) {
     { ygm::container::bag<int> b(world); auto pt = tally.get_ygm_ptr();
       for (long i = 0; i < k; ++i) { b.async_insert((int)i); world.async((int)g.below(world.size()), [](int x) { g_exec++; }, (int)i); n++; } }
     report("bag", n); }
+  { // construction / destruction churn with a RANK-DEPENDENT heap history: registering a new container (ygm_ptr slot, checked
+    // with an all-reduce in the constructor) must not depend on whether the allocator hands out an address that a destroyed
+    // container of the same type occupied before
+    using M = ygm::container::map<int, int>;
+    for (int round = 0; round < 3; ++round) {
+      M* a = new M(world);
+      a->async_insert(world.rank(), round);
+      delete a;                                              // destructor barrier
+      void* keep = nullptr;
+      if ((world.rank() + round) % 2 == 1) keep = ::operator new(sizeof(M));   // takes the block just freed on these ranks
+      M* b = new M(world);                                   // same address as `a` on some ranks, a fresh one on the others
+      n = 0;
+      for (long i = 0; i < k; ++i) { b->async_visit((int)g.below(50), [](const int& key, int& v) { g_exec++; v++; }); n++; }
+      delete b;
+      ::operator delete(keep);
+      report("churn", n);
+    }
+  }
   return 0;
 }
